@@ -184,17 +184,32 @@ def replay_dump(title, ns, selected, mi, text, has_redirect, target):
     return (f"parse_dump_xml of a dump with page title={title!r} ns={ns} model={MODELS[mi]!r} redirect={target if has_redirect else None!r}, namespace {'selected' if selected else 'not selected'}", bool(bad), f"stored {got}, expected {want}")
 
 
-# ---------------------------------------------------------------- add_default_templates with a symbolic "present" bit per helper
+# ---------------------------------------------------------------- add_default_templates with a symbolic presence kind per helper
 class FakeWtp:
-    def __init__(self, present):
+    """answers every way the function may ask whether a page is there.  kinds: 0 absent, 1 template with text,
+    2 template whose includable part is empty, 3 redirect whose target is not in the store"""
+
+    def __init__(self, kinds):
         self.NAMESPACE_DATA = {"Template": {"id": 10, "name": "Template"}}
-        self.present = present  # title -> bool
+        self.kinds = kinds  # title -> kind
         self.added = []
         self.commits = 0
         self.db_conn = self
 
     def page_exists(self, title, ns_id=0):
-        return self.present.get(title, False)
+        return self.kinds.get(title, 0) != 0
+
+    def get_page(self, title, ns_id=None, no_redirect=False):
+        k = self.kinds.get(title, 0)
+        return None if k == 0 else _page(title, k)
+
+    def get_page_resolve_redirect(self, title, ns_id=None):
+        k = self.kinds.get(title, 0)
+        return None if k in (0, 3) else _page(title, k)
+
+    def get_page_body(self, title, ns_id=None):
+        k = self.kinds.get(title, 0)
+        return {0: None, 1: "CUSTOM", 2: "", 3: None}[k]
 
     def add_page(self, title, ns_id, body=None, **kw):
         self.added.append((title, ns_id, body))
@@ -203,33 +218,53 @@ class FakeWtp:
         self.commits += 1
 
 
+def _page(title, k):
+    from wikitextprocessor.core import Page
+
+    return Page(title=title, namespace_id=10, redirect_to="Template:Nowhere" if k == 3 else None, need_pre_expand=False, body={1: "CUSTOM", 2: "", 3: None}[k], model="wikitext")
+
+
 HELPERS = {"Template:!": "|", "Template:=": "=", "Template:((": "&lbrace;&lbrace;", "Template:))": "&rbrace;&rbrace;"}
 
 
-def defaults_ok(p0: bool, p1: bool, p2: bool, p3: bool) -> bool:
+def _pickk(x, n: int) -> int:
+    for v in range(n):
+        if x == v:
+            return v
+    raise AssertionError("outside the precondition")
+
+
+def defaults_ok(p0: int, p1: int, p2: int, p3: int) -> bool:
     """
+    pre: 0 <= p0 < 4 and 0 <= p1 < 4 and 0 <= p2 < 4 and 0 <= p3 < 4
     post: _
     """
     titles = list(HELPERS)
-    present = dict(zip(titles, [p0, p1, p2, p3]))
-    w = FakeWtp(present)
+    kinds = dict(zip(titles, [_pickk(p0, 4), _pickk(p1, 4), _pickk(p2, 4), _pickk(p3, 4)]))
+    w = FakeWtp(kinds)
     D.add_default_templates(w)
-    want = [(t, 10, HELPERS[t]) for t in titles if not present[t]]
+    want = [(t, 10, HELPERS[t]) for t in titles if kinds[t] == 0]
     return sorted(w.added) == sorted(want)
 
 
 def replay_defaults_ok(p0, p1, p2, p3):
     titles = list(HELPERS)
-    present = dict(zip(titles, [p0, p1, p2, p3]))
+    kinds = dict(zip(titles, [p0, p1, p2, p3]))
     w = Wtp(quiet=True, quiet_output=True)
     for t in titles:
-        if present[t]:
+        if kinds[t] == 1:
             w.add_page(t, 10, "CUSTOM")
+        elif kinds[t] == 2:
+            w.add_page(t, 10, "<noinclude>documentation only</noinclude>")
+        elif kinds[t] == 3:
+            w.add_page(t, 10, None, redirect_to="Template:Nowhere")
     D.add_default_templates(w)
     bad = []
     for t in titles:
         pg = w.get_page(t, 10)
-        want = "CUSTOM" if present[t] else HELPERS[t]
-        if pg is None or pg.body != want:
-            bad.append((t, None if pg is None else pg.body, want))
-    return (f"add_default_templates with helper templates already present: {[t for t in titles if present[t]]}", bool(bad), f"helper templates wrong: {bad}")
+        want = {0: (HELPERS[t], None), 1: ("CUSTOM", None), 2: ("", None), 3: (None, "Template:Nowhere")}[kinds[t]]
+        got = None if pg is None else (pg.body, pg.redirect_to)
+        if got != want:
+            bad.append((t, got, want))
+    names = {0: "absent", 1: "template with text", 2: "template with an empty includable part", 3: "redirect to a missing page"}
+    return ("add_default_templates on a store where " + ", ".join(f"{t} is {names[kinds[t]]}" for t in titles), bool(bad), f"helper templates wrong (title, (body, redirect) stored, expected): {bad}")
